@@ -1,0 +1,27 @@
+//go:build verif
+
+// Package verifhook provides named pause points for external runtime-verification harnesses.
+// With the "verif" build tag At calls the handler installed with Set (if any).
+package verifhook
+
+import "sync/atomic"
+
+type handler struct{ f func(point, key string) }
+
+var current atomic.Pointer[handler]
+
+// Set installs (or, with nil, removes) the handler called at every hook point.
+func Set(f func(point, key string)) {
+	if f == nil {
+		current.Store(nil)
+		return
+	}
+	current.Store(&handler{f: f})
+}
+
+// At marks a point a verification harness may observe or hold.
+func At(point, key string) {
+	if h := current.Load(); h != nil {
+		h.f(point, key)
+	}
+}
